@@ -84,8 +84,10 @@ def _item(d, key, on = None, renames = None):
         if isinstance(renames, list) and len(renames) == 1:
             renames = renames[0]
         if is_str(renames):
+            d = d.copy() ## the renamed column goes into a copy: the table belongs to the caller
             d[key] = d[renames]
         elif is_dict(renames) and key in renames:
+            d = d.copy()
             d[key] = d[renames[key]]
         on = d.keys() & on
         if key in d.keys():
